@@ -211,8 +211,9 @@ static void gen_case(Harness &H, Cmp &C, const std::string &d0, const std::vecto
 }
 
 // ---- operations on splines with small dyadic coefficients ----------------------------------
+// sc: overall power-of-two scale of the coefficients (exact), so that thresholds with an ABSOLUTE tolerance show up
 template <class FT, size_t o>
-static Spline<FT, o> dy_spline(const Grid<FT> &g, Win w, int variant) {
+static Spline<FT, o> dy_spline(const Grid<FT> &g, Win w, int variant, int sc = 0) {
   std::vector<std::array<FT, o + 1>> c(w.nint());
   for (size_t i = 0; i < w.nint(); i++)
     for (size_t k = 0; k <= o; k++) {
@@ -224,17 +225,18 @@ static Spline<FT, o> dy_spline(const Grid<FT> &g, Win w, int variant) {
       z ^= z >> 32;
       int64_t num = (int64_t)(z & (((uint64_t)1 << bits) - 1)) - ((int64_t)1 << (bits - 1));
       c[i][k] = static_cast<FT>(num) / static_cast<FT>((int64_t)1 << (bits - 2));  // |c| <= 2
+      if (sc) c[i][k] = std::ldexp(c[i][k], sc);
     }
   return Spline<FT, o>(Support<FT>(g, w.s, w.e), std::move(c));
 }
 
 template <class FT, size_t oa, size_t ob>
-static void op_case(Harness &H, Cmp &C, const std::string &d0, const std::vector<mpq_class> &g, Win wa, Win wb) {
+static void op_case(Harness &H, Cmp &C, const std::string &d0, const std::vector<mpq_class> &g, Win wa, Win wb, int sc = 0) {
   if (!H.take()) return;
-  H.begin(std::string(TN<FT>::n) + ";ops;o" + std::to_string(oa) + "," + std::to_string(ob) + ";" + d0 + ";" + wstr(wa) + ";" + wstr(wb));
+  H.begin(std::string(TN<FT>::n) + ";ops;o" + std::to_string(oa) + "," + std::to_string(ob) + ";" + d0 + ";" + wstr(wa) + ";" + wstr(wb) + (sc ? ";coefficients*2^" + std::to_string(sc) : ""));
   Grid<FT> G = mkgrid<FT>(g);
-  auto a = dy_spline<FT, oa>(G, wa, 0);
-  auto b = dy_spline<FT, ob>(G, wb, 1);
+  auto a = dy_spline<FT, oa>(G, wa, 0, sc);
+  auto b = dy_spline<FT, ob>(G, wb, 1, -sc / 2);
   auto ivl = [&](const auto &s, size_t j) -> long {  // relative index of absolute interval j, -1 if none
     const auto &sp = s.getSupport();
     return (j >= sp.getStartIndex() && j + 1 < sp.getEndIndex()) ? (long)(j - sp.getStartIndex()) : -1;
@@ -348,17 +350,21 @@ static void per_type(Harness &H, Cmp &C) {
     // operations: whole grid x whole grid and two sub-window placements
     std::vector<std::pair<Win, Win>> WW = {{Win{0, n}, Win{0, n}}};
     if (n >= 3) { WW.push_back({Win{0, n - 1}, Win{1, n}}); WW.push_back({Win{1, n}, Win{0, n}}); }
-    for (auto &ww : WW) {
-      op_case<FT, 0, 0>(H, C, d0, g, ww.first, ww.second);
-      op_case<FT, 1, 0>(H, C, d0, g, ww.first, ww.second);
-      op_case<FT, 1, 1>(H, C, d0, g, ww.first, ww.second);
-      op_case<FT, 2, 1>(H, C, d0, g, ww.first, ww.second);
-      op_case<FT, 1, 2>(H, C, d0, g, ww.first, ww.second);
-      op_case<FT, 2, 2>(H, C, d0, g, ww.first, ww.second);
-      op_case<FT, 3, 1>(H, C, d0, g, ww.first, ww.second);
-      op_case<FT, 0, 3>(H, C, d0, g, ww.first, ww.second);
-      op_case<FT, 3, 3>(H, C, d0, g, ww.first, ww.second);
-      op_case<FT, 2, 3>(H, C, d0, g, ww.first, ww.second);
+    const int SC = std::is_same_v<FT, float> ? 16 : 40;
+    for (size_t wi = 0; wi < WW.size(); wi++) {
+      auto &ww = WW[wi];
+      // coefficient scale: none / 2^SC / 2^-SC, rotating over window placements and grids
+      int sel = (int)((wi + mask) % 3), sc = sel == 0 ? 0 : sel == 1 ? SC : -SC;
+      op_case<FT, 0, 0>(H, C, d0, g, ww.first, ww.second, sc);
+      op_case<FT, 1, 0>(H, C, d0, g, ww.first, ww.second, sc);
+      op_case<FT, 1, 1>(H, C, d0, g, ww.first, ww.second, sc);
+      op_case<FT, 2, 1>(H, C, d0, g, ww.first, ww.second, sc);
+      op_case<FT, 1, 2>(H, C, d0, g, ww.first, ww.second, sc);
+      op_case<FT, 2, 2>(H, C, d0, g, ww.first, ww.second, sc);
+      op_case<FT, 3, 1>(H, C, d0, g, ww.first, ww.second, sc);
+      op_case<FT, 0, 3>(H, C, d0, g, ww.first, ww.second, sc);
+      op_case<FT, 3, 3>(H, C, d0, g, ww.first, ww.second, sc);
+      op_case<FT, 2, 3>(H, C, d0, g, ww.first, ww.second, sc);
     }
   }
 }
